@@ -286,6 +286,22 @@ fn index_width_cases(coin: &'static Coin) -> Vec<(String, ChainBuilder)> {
         cb.push(vec![Tx { version: 1, segwit: false, inputs: vec![TxIn::spend([0xee; 32], 1)], outputs: many, locktime: 0 }]);
         v.push(("large values (sums beyond 2^32 / 2^53 / near 2^64) and 3000 outputs to one address".to_string(), cb));
     }
+    // a big UTXO set: 250 000 unspent outputs over 40 addresses (5 transactions of 50 000 outputs), 10 000 of them spent again
+    {
+        let mut cb = ChainBuilder::with_genesis(coin);
+        let mut txids = Vec::new();
+        let mut txs = Vec::new();
+        for t in 0..5usize {
+            let outs: Vec<TxOut> = (0..50_000usize).map(|i| TxOut { value: 1 + (i % 1000) as u64, script: script::p2pkh(&script::h20(((i + t) % 40) as u8 + 100)) }).collect();
+            let tx = Tx { version: 1, segwit: false, inputs: vec![TxIn::spend([0xee; 32], t as u32)], outputs: outs, locktime: t as u32 };
+            txids.push(tx.txid());
+            txs.push(tx);
+        }
+        cb.push(txs);
+        let spender = Tx { version: 1, segwit: false, inputs: (0..10_000u32).map(|i| TxIn::spend(txids[(i % 5) as usize], i * 4)).collect(), outputs: vec![TxOut { value: 9, script: script::p2pkh(&script::h20(100)) }], locktime: 0 };
+        cb.push(vec![spender]);
+        v.push(("250000 unspent outputs over 40 addresses, 10000 spent".to_string(), cb));
+    }
     v
 }
 
@@ -320,6 +336,9 @@ pub fn run(prop: &str) -> Report {
         items.push(Item::W(cname, 0));
         items.push(Item::W(cname, 1));
         items.push(Item::W(cname, 2));
+        if cname == "bitcoin" {
+            items.push(Item::W(cname, 3));
+        }
     }
     let cap = wall_cap();
     let t0 = std::time::Instant::now();
@@ -389,7 +408,8 @@ fn run_and_judge(prop: &str, c08: bool, wk: &Worker, cn: &'static Coin, world: &
         acc.machinery(m);
         return;
     }
-    let spec_u = RunSpec::new(cn.name, "unspentcsvdump").range(start, None);
+    let mut spec_u = RunSpec::new(cn.name, "unspentcsvdump").range(start, None);
+    spec_u.env.push(("VERIF_RUN_TIMEOUT".into(), "120".into()));
     let ru = wk.run(&spec_u);
     acc.states += 1;
     acc.transitions += 1;
@@ -410,7 +430,8 @@ fn run_and_judge(prop: &str, c08: bool, wk: &Worker, cn: &'static Coin, world: &
         return;
     }
     // C08: balances against the model and against the aggregation of the observed unspent dump
-    let spec_b = RunSpec::new(cn.name, "balances").range(start, None);
+    let mut spec_b = RunSpec::new(cn.name, "balances").range(start, None);
+    spec_b.env.push(("VERIF_RUN_TIMEOUT".into(), "120".into()));
     let rb = wk.run(&spec_b);
     acc.transitions += 1;
     if let Some((sig, detail)) = check_balances(&rb, cn, &range, s, e).into_iter().next() {
